@@ -1,14 +1,20 @@
 #!/usr/bin/env python3
 """Writes one prompt per property for a seeding sub-agent (only the property text
 and the path of its own scratch worktree), as used for the two rounds recorded
-in DESIGN.md 8.4.  usage: mk_seed_prompts.py <outdir> [round2]"""
+in DESIGN.md 8.4.  usage: mk_seed_prompts.py <outdir> [round2|round3]"""
 import json, sys
 out = sys.argv[1]
 tmpl = open('/verif/tools/seed_prompt.tmpl').read().replace('/tmp/seed/', out.rstrip('/') + '/')
 extra = '''
 
 ADDITIONAL CONSTRAINT (second, independent round): other engineers have already produced the most obvious change for this property. Choose a site that is NOT the most obvious one: for instance the mechanism listed LAST among the property's anchors, a file other than the first anchor file, a different crate that participates in the same guarantee, or a rarely used option that routes through different code (--null-data, --crlf, --multiline, --invert-match, --passthru, --only-matching, --replace, --max-columns, --json, --sort, --max-depth, --follow, --one-file-system, --no-ignore-*, --encoding, --search-zip, --pre-glob, --byte-offset, --vimgrep, --context-separator, --null, --files-without-match, --count-matches ...), whichever applies to this property. The violation should still be a clean semantic one (wrong result), not a crash.
-''' if len(sys.argv) > 2 else ''
+''' if len(sys.argv) > 2 and sys.argv[2] == 'round2' else ''
+extra3 = '''
+
+ADDITIONAL CONSTRAINT (third, independent round): two earlier rounds have already produced the obvious and the second most obvious change for this property, and automated checkers that compare ripgrep against independent models on randomly generated inputs and flag combinations exist. Aim for a change such a checker is LEAST likely to stumble on: one that needs a boundary value (an internal buffer size such as 64 KiB or 8 KiB, a limit constant, an exact count), an interaction of two or three options that are rarely combined, an error or early-exit path, state carried over from one file / one search to the next (reused searcher, printer or matcher; second file of a run; second root), or a specific ordering of entries or events. It must still be a clean semantic violation of the property as stated (a wrong result a user could observe), not a crash, and the demo must show it deterministically.
+'''
+if len(sys.argv) > 2 and sys.argv[2] == 'round3':
+    extra = extra3
 for line in open('/verif/properties.jsonl'):
     p = json.loads(line)
     open('%s/%s.prompt.txt' % (out, p['id']), 'w').write(
